@@ -325,7 +325,7 @@ fn lib_engine(rep: &Report, seed: u64, cases: usize) {
 
 pub fn run(tier: Tier, seed: u64) -> i32 {
     let rep = Report::new("C02", "exploration", tier, seed);
-    let n = tier.pick(220, 3000);
+    let n = tier.pick(600, 6000);
     let viols = par_map(n, crate::util::ncpu(), |i| {
         let mut rng = Rng::new(seed).fork(0x0200 + i as u64);
         let sc = cc::gen_scenario(&mut rng, Focus::Seeds, (1, 5), false);
@@ -342,7 +342,7 @@ pub fn run(tier: Tier, seed: u64) -> i32 {
             );
         }
     }
-    let nc = tier.pick(10, 60);
+    let nc = tier.pick(24, 120);
     let v = par_map(nc, crate::util::ncpu(), |i| {
         let k = if tier == Tier::Thorough && i % 10 == 9 { 5 } else { 4 };
         (i, k, near_collision_case(&rep, i, seed ^ 0xc011, k))
@@ -356,7 +356,7 @@ pub fn run(tier: Tier, seed: u64) -> i32 {
             );
         }
     }
-    lib_engine(&rep, seed, tier.pick(40_000, 600_000));
+    lib_engine(&rep, seed, tier.pick(200_000, 3_000_000));
     if rep.counter("clones_with_seeds_judged") == 0 || rep.counter("near_collision_clones_correct") == 0 {
         rep.broken("no seeded clone / no near-collision clone was judged".into());
     }
